@@ -122,7 +122,9 @@ def gen_update(rnd, kind):
         flags, typ, ln = tlv[0], tlv[1], tlv[2]
         if not flags & 0x10:
             attrs[k] = (name, bytes([flags | 0x10, typ, 0, ln]) + tlv[3:])
-    nlri = b''.join(W.prefix4(f'10.{rnd.randint(0, 255)}.{rnd.randint(0, 255)}.0', rnd.choice([8, 16, 24, 25, 32, 0]), pid()) for _ in range(rnd.randint(0, 3)))
+    # the last octets are random: with a length which is not a multiple of 8 the trailing bits of the last octet are set
+    # (RFC 4271 4.3: irrelevant -- two spellings of one prefix are one route)
+    nlri = b''.join(W.prefix4(f'10.{rnd.randint(0, 255)}.{rnd.randint(0, 255)}.{rnd.choice([0, 0, 255, rnd.randint(0, 255)])}', rnd.choice([8, 16, 20, 24, 25, 27, 32, 0]), pid()) for _ in range(rnd.randint(0, 3)))
     wd = b''.join(W.prefix4(f'172.16.{rnd.randint(0, 255)}.0', 24, pid()) for _ in range(rnd.randint(0, 2)))
     return W.update_body(wd, b''.join(t for _, t in attrs), nlri), attrs, wd, nlri
 
